@@ -18,6 +18,8 @@ pub struct Nf {
     /// one entry per top-level statement: offset into `out` where it starts
     pub stmt_starts: Vec<usize>,
     depth_block: usize,
+    /// enclosing type constructors ("" = transparent); used to flatten `(A | B) | C` into `A | B | C`
+    tstack: Vec<&'static str>,
 }
 
 fn pos(t: &TokenReference) -> usize {
@@ -41,7 +43,7 @@ fn is_multi(e: &Expression) -> bool {
 
 impl Nf {
     pub fn new(modern: bool, intfloat: bool) -> Self {
-        Nf { out: String::new(), skip: HashSet::new(), trunc: HashSet::new(), modern, intfloat, stmt_starts: vec![], depth_block: 0 }
+        Nf { out: String::new(), skip: HashSet::new(), trunc: HashSet::new(), modern, intfloat, stmt_starts: vec![], depth_block: 0, tstack: vec![] }
     }
 
     fn mark_last<'a>(&mut self, e: Option<&'a Expression>) {
@@ -287,23 +289,27 @@ impl Visitor for Nf {
     #[cfg(feature = "allsyn")]
     fn visit_type_info(&mut self, t: &luau::TypeInfo) {
         use luau::TypeInfo;
-        match t {
+        // union and intersection are associative: a union directly inside a union (through redundant parentheses only)
+        // is the same type, so it gets no bracket of its own
+        let parent = self.tstack.iter().rev().find(|x| !x.is_empty()).copied().unwrap_or("top");
+        let tag: &'static str = match t {
             TypeInfo::Tuple { parentheses, types } if types.len() == 1 => {
                 let (a, b) = parentheses.tokens();
                 self.skip.insert(pos(a));
                 self.skip.insert(pos(b));
+                ""
             }
             TypeInfo::Union(u) => {
                 if let Some(l) = u.leading() {
                     self.skip.insert(pos(l));
                 }
-                self.ev("<TUnion");
+                if parent == "<TUnion" { "" } else { "<TUnion" }
             }
             TypeInfo::Intersection(u) => {
                 if let Some(l) = u.leading() {
                     self.skip.insert(pos(l));
                 }
-                self.ev("<TInter");
+                if parent == "<TInter" { "" } else { "<TInter" }
             }
             TypeInfo::Table { fields, .. } => {
                 for p in fields.pairs() {
@@ -311,25 +317,30 @@ impl Visitor for Nf {
                         self.skip.insert(pos(sep));
                     }
                 }
-                self.ev("<TTable");
+                "<TTable"
             }
-            TypeInfo::Optional { .. } => self.ev("<TOpt"),
-            TypeInfo::Callback { .. } => self.ev("<TFn"),
-            TypeInfo::Array { .. } => self.ev("<TArr"),
-            TypeInfo::Generic { .. } => self.ev("<TGen"),
-            TypeInfo::Tuple { .. } => self.ev("<TTuple"),
-            TypeInfo::Variadic { .. } => self.ev("<TVar"),
-            TypeInfo::Typeof { .. } => self.ev("<TTypeof"),
-            TypeInfo::Module { .. } => self.ev("<TMod"),
-            _ => self.ev("<T"),
+            TypeInfo::Optional { .. } => "<TOpt",
+            TypeInfo::Callback { .. } => "<TFn",
+            TypeInfo::Array { .. } => "<TArr",
+            TypeInfo::Generic { .. } => "<TGen",
+            TypeInfo::Tuple { .. } => "<TTuple",
+            TypeInfo::Variadic { .. } => "<TVar",
+            TypeInfo::Typeof { .. } => "<TTypeof",
+            TypeInfo::Module { .. } => "<TMod",
+            _ => "<T",
+        };
+        // a flattened union member list still needs its operator tokens: they are ordinary symbols and are kept
+        self.tstack.push(tag);
+        if !tag.is_empty() {
+            self.ev(tag);
         }
     }
     #[cfg(feature = "allsyn")]
-    fn visit_type_info_end(&mut self, t: &luau::TypeInfo) {
-        use luau::TypeInfo;
-        match t {
-            TypeInfo::Tuple { types, .. } if types.len() == 1 => {}
-            _ => self.ev(">"),
+    fn visit_type_info_end(&mut self, _t: &luau::TypeInfo) {
+        if let Some(tag) = self.tstack.pop() {
+            if !tag.is_empty() {
+                self.ev(">");
+            }
         }
     }
     #[cfg(feature = "allsyn")]
